@@ -33,7 +33,28 @@ type c04Case struct {
 	// StaleRaw (hash envelope, constructed, sign): the headers handed to SignHashEnvelope still carry the raw
 	// protected bytes of another message, naming another algorithm
 	StaleRaw bool `json:"stale_raw,omitempty"`
+	// Rich: the caller's signer / verifier is a Go type with further methods (Algorithms(), Algorithm-set style
+	// conveniences, DigestSigner-like extras): what counts is what Algorithm() reports
+	Rich bool `json:"rich,omitempty"`
 }
+
+// richSigner / richVerifier: keys of a caller's own type that offer more than the two interface methods.
+type richSigner struct{ *bridge.SpySigner }
+
+func c04AllAlgs() []cose.Algorithm {
+	return []cose.Algorithm{cose.AlgorithmES256, cose.AlgorithmES384, cose.AlgorithmES512, cose.AlgorithmPS256, cose.AlgorithmPS384, cose.AlgorithmPS512, cose.AlgorithmEdDSA, cose.Algorithm(-65537), cose.Algorithm(7), cose.Algorithm(-37)}
+}
+func (richSigner) Algorithms() []cose.Algorithm          { return c04AllAlgs() }
+func (richSigner) SupportedAlgorithms() []cose.Algorithm { return c04AllAlgs() }
+func (richSigner) Supports(cose.Algorithm) bool          { return true }
+func (richSigner) AnyAlgorithm() bool                    { return true }
+
+type richVerifier struct{ *bridge.SpyVerifier }
+
+func (richVerifier) Algorithms() []cose.Algorithm          { return c04AllAlgs() }
+func (richVerifier) SupportedAlgorithms() []cose.Algorithm { return c04AllAlgs() }
+func (richVerifier) Supports(cose.Algorithm) bool          { return true }
+func (richVerifier) AnyAlgorithm() bool                    { return true }
 
 // unprotAlg returns the value placed under label 1 of the unprotected bucket.
 func (c *c04Case) unprotAlg() (int64, bool) {
@@ -313,6 +334,12 @@ func checkC04(c c04Case) error {
 	priorSigner := func() cose.Signer { return &bridge.SpySigner{Alg: priorAlg} }
 	spyS := &bridge.SpySigner{Alg: cose.Algorithm(c.SignerAlg)}
 	spyV := &bridge.SpyVerifier{Alg: cose.Algorithm(c.SignerAlg)}
+	var useS cose.Signer = spyS
+	var useV cose.Verifier = spyV
+	if c.Rich {
+		useS, useV = richSigner{spyS}, richVerifier{spyV}
+		stats.Class("caller-key-type-with-further-methods")
+	}
 	rnd := refcose.NewEntropy(nil)
 	var opErr error
 	var emitted []byte // message emitted after a successful sign (when the structure has one)
@@ -339,9 +366,9 @@ func checkC04(c c04Case) error {
 		if c.Op == "sign" {
 			m.Signature = nil
 			if c.Struct == "Untagged" {
-				opErr = (*cose.UntaggedSign1Message)(m).Sign(rnd, ext, spyS)
+				opErr = (*cose.UntaggedSign1Message)(m).Sign(rnd, ext, useS)
 			} else {
-				opErr = m.Sign(rnd, ext, spyS)
+				opErr = m.Sign(rnd, ext, useS)
 			}
 			if opErr == nil {
 				emitted, _ = m.MarshalCBOR()
@@ -349,9 +376,9 @@ func checkC04(c c04Case) error {
 		} else {
 			m.Signature = []byte{1, 2, 3}
 			if c.Struct == "Untagged" {
-				opErr = (*cose.UntaggedSign1Message)(m).Verify(ext, spyV)
+				opErr = (*cose.UntaggedSign1Message)(m).Verify(ext, useV)
 			} else {
-				opErr = m.Verify(ext, spyV)
+				opErr = m.Verify(ext, useV)
 			}
 		}
 	case "Signature":
@@ -369,13 +396,13 @@ func checkC04(c c04Case) error {
 			s.Signature = nil
 		}
 		if c.Op == "sign" {
-			opErr = s.Sign(rnd, spyS, []byte{0x40}, payload, ext)
+			opErr = s.Sign(rnd, useS, []byte{0x40}, payload, ext)
 			if opErr == nil {
 				emitted, _ = s.MarshalCBOR()
 			}
 		} else {
 			s.Signature = []byte{1, 2, 3}
-			opErr = s.Verify(spyV, []byte{0x40}, payload, ext)
+			opErr = s.Verify(useV, []byte{0x40}, payload, ext)
 		}
 	case "Countersignature":
 		tbsIdx = 2
@@ -392,13 +419,13 @@ func checkC04(c c04Case) error {
 			cs.Signature = nil
 		}
 		if c.Op == "sign" {
-			opErr = cs.Sign(rnd, spyS, c04Parent, ext)
+			opErr = cs.Sign(rnd, useS, c04Parent, ext)
 			if opErr == nil {
 				emitted, _ = cs.MarshalCBOR()
 			}
 		} else {
 			cs.Signature = []byte{1, 2, 3}
-			opErr = cs.Verify(spyV, c04Parent, ext)
+			opErr = cs.Verify(useV, c04Parent, ext)
 		}
 	case "HashEnvelope":
 		// no external data in this structure
@@ -408,14 +435,14 @@ func checkC04(c c04Case) error {
 				stats.Class("skipped/hash-envelope-mode")
 				return nil
 			}
-			emitted, opErr = cose.SignHashEnvelope(rnd, spyS, h, cose.HashEnvelopePayload{HashAlgorithm: cose.AlgorithmSHA256, HashValue: make([]byte, 32)})
+			emitted, opErr = cose.SignHashEnvelope(rnd, useS, h, cose.HashEnvelopePayload{HashAlgorithm: cose.AlgorithmSHA256, HashValue: make([]byte, 32)})
 		} else {
 			if c.Mode != "decoded" {
 				stats.Class("skipped/hash-envelope-mode")
 				return nil
 			}
 			w, _ := decodedMsg.MarshalCBOR()
-			_, opErr = cose.VerifyHashEnvelope(spyV, w)
+			_, opErr = cose.VerifyHashEnvelope(useV, w)
 		}
 	}
 
@@ -559,7 +586,7 @@ func TestC04_Grid(t *testing.T) {
 		judge(t, "c04", c, checkC04)
 	}
 	structs := []string{"Sign1", "Untagged", "Signature", "Countersignature", "HashEnvelope"}
-	signerAlgs := []int64{-7, -8, -37, -65537, 7}
+	signerAlgs := []int64{-7, -8, -37, -65537, 7, 0}
 	for _, st := range structs {
 		for _, mode := range []string{"constructed", "decoded", "raw+map", "raw-only", "re-decoded", "re-issued"} {
 			for _, op := range []string{"sign", "verify"} {
@@ -590,6 +617,7 @@ func TestC04_Grid(t *testing.T) {
 										run(c04Case{Struct: st, Mode: mode, Op: op, Alg: v, LabelSp: lsp, SignerAlg: sa, Ext: ext, StaleRaw: true})
 									}
 									if lsp == 0 && vsp == av.Sp {
+										run(c04Case{Struct: st, Mode: mode, Op: op, Alg: v, LabelSp: lsp, SignerAlg: sa, Ext: ext, Rich: true})
 										// the unprotected bucket names the key's algorithm (or another one) as well
 										run(c04Case{Struct: st, Mode: mode, Op: op, Alg: v, LabelSp: lsp, SignerAlg: sa, Ext: ext, UnprotAlg: 1})
 										run(c04Case{Struct: st, Mode: mode, Op: op, Alg: v, LabelSp: lsp, SignerAlg: sa, Ext: ext, UnprotAlg: 2})
